@@ -84,7 +84,7 @@ func auditProblems(wd string, exp *ref.Result, ti *mon.TraceIndex) (ps []mon.Pro
 func c10(args []string) {
 	c := chk.New("C10", "exploration", args)
 	c.Build(false)
-	c.Rule("[path shapes] chain / two-output / diamond topologies with outputs in nested, parent-relative and absolute directories: every record field (OutFiles, Upstream keys, commands) names the declared paths; [stale audit files] history: run with one tagging rule, output files deleted while their .audit.json files stay, run with another tagging rule - the records the second run writes carry the second run's tags only; generated graphs (a quarter of the commands carry a free-text argument with JSON-escape look-alikes such as \\u0026, printf verbs or backslashes) with multi-input / multi-output tasks, parameters, MapToTags components (tags consumed downstream in commands and default output names), StreamToSubStream + joined in-ports, fan-in / fan-out, Prepend, depth <= 6; oracle: every finalized output has a parsable <path>.audit.json equal to the reference lineage tree in ProcessName, Command, Params, Tags, OutFiles and Upstream key set, recursively down to the source files (empty records), timing sane (start <= finish, duration >= 0, start non-zero); the recorded command equals the argv the command itself logged; a tag attached with an empty value and filled in by a later tagging step; parameter ports that exist only through InParam(name) (value used in the SetOut pattern, not in the command) belong to the record too. distinct_nontrivial = distinct (graph shape, config) with >= 3 audit records of depth >= 2")
+	c.Rule("[globbed] files written as ./made/x and picked up again by a dependent FileGlobber as made/x: the consumer's record holds the producer's record; [path shapes] chain / two-output / diamond topologies with outputs in nested, parent-relative and absolute directories: every record field (OutFiles, Upstream keys, commands) names the declared paths; [stale audit files] history: run with one tagging rule, output files deleted while their .audit.json files stay, run with another tagging rule - the records the second run writes carry the second run's tags only; generated graphs (a quarter of the commands carry a free-text argument with JSON-escape look-alikes such as \\u0026, printf verbs or backslashes) with multi-input / multi-output tasks, parameters, MapToTags components (tags consumed downstream in commands and default output names), StreamToSubStream + joined in-ports, fan-in / fan-out, Prepend, depth <= 6; oracle: every finalized output has a parsable <path>.audit.json equal to the reference lineage tree in ProcessName, Command, Params, Tags, OutFiles and Upstream key set, recursively down to the source files (empty records), timing sane (start <= finish, duration >= 0, start non-zero); the recorded command equals the argv the command itself logged; a tag attached with an empty value and filled in by a later tagging step; parameter ports that exist only through InParam(name) (value used in the SetOut pattern, not in the command) belong to the record too. distinct_nontrivial = distinct (graph shape, config) with >= 3 audit records of depth >= 2")
 	c.Assume("ids and absolute times are not compared", "MapToTags is only placed on streams it consumes alone (the component mutates the record it shares with the producer; with sibling consumers that is the C12 race)")
 	rng := c.Rand("c10")
 	type job struct {
@@ -360,6 +360,7 @@ func c10(args []string) {
 	}
 	c10staleAudit(c)
 	c10pathShapes(c)
+	c10globbed(c)
 	c.Finish()
 }
 
@@ -521,5 +522,65 @@ func c10pathShapes(c *chk.Ctx) {
 		}
 		c.Count("audit_records_compared", n)
 		c.Nontrivial(fmt.Sprintf("pathshape|%s|%s|%v", j.kind, j.sh, j.gof))
+	})
+}
+
+// c10globbed: files that re-enter the workflow through a dependent FileGlobber under another spelling of their path
+// than their producer used ("./made/f_1.txt" written, "made/f_1.txt" matched): the record of the consuming task still
+// contains the producer's full record for that input.
+func c10globbed(c *chk.Ctx) {
+	run.Parallel(c.Pick(3, 9), func(i int) {
+		root := c.CaseDir()
+		defer c.Drop(root)
+		n := 2 + i%3
+		var vals []string
+		for k := 0; k < n; k++ {
+			vals = append(vals, fmt.Sprint(k))
+		}
+		prefix := []string{"./made/", "made/./", "./made/sub/../"}[i%3]
+		if i%3 == 2 {
+			prefix = "./made/" // (paths with ".." segments are spelled by the task as they are)
+		}
+		s := &spec.Spec{Name: "globbed", MaxTasks: 3, Sources: map[string]string{}}
+		s.Procs = append(s.Procs, &spec.Proc{Name: "maker", Kind: []string{spec.KCmd, spec.KGoFunc}[i%2], Cmd: spec.BuildCmd("maker", nil, []spec.PortDecl{{Name: "out"}}, []string{"i"}, nil, nil),
+			Outs: []*spec.Out{{Port: "out", Pattern: prefix + "f_{p:i}.txt"}}, Feeds: []*spec.Feed{{Port: "i", How: "int", Values: vals}}},
+			&spec.Proc{Name: "GL", Kind: spec.KGlobber, Files: []string{"made/f_*.txt"}, DepIn: true},
+			&spec.Proc{Name: "use", Kind: spec.KCmd, Cmd: spec.BuildCmd("use", []spec.PortDecl{{Name: "in"}}, []spec.PortDecl{{Name: "out"}}, nil, nil, nil), Outs: []*spec.Out{{Port: "out", Pattern: "used/{i:in|basename}.use.out"}}})
+		s.Conns = append(s.Conns, &spec.Conn{From: "maker.out", To: "GL.in_dep"}, &spec.Conn{From: "GL.out", To: "use.in"})
+		cfg := Cfg{Buf: []int{1, 128}[i%2], Procs: 2}
+		desc := map[string]interface{}{"spec": s, "cfg": cfg, "producer_path_prefix": prefix}
+		res := execSpec(c, root, s, cfg, nil, false, 0)
+		if res.Hang != "" && !strings.HasPrefix(res.Hang, "deadlock") {
+			c.Inconclusive(res.Hang)
+			return
+		}
+		if res.Hang != "" || res.Exit != 0 || !res.Returned {
+			c.Violation("run:exit-nonzero", fmt.Sprintf("exit %d %s: %s", res.Exit, res.Hang, tail(res.Output(), 400)), desc)
+			return
+		}
+		var ps []mon.Problem
+		for k := 0; k < n; k++ {
+			in := fmt.Sprintf("made/f_%d.txt", k)
+			a, err := mon.LoadAudit(filepath.Join(res.Wd, fmt.Sprintf("used/f_%d.txt.use.out.audit.json", k)))
+			if err != nil {
+				ps = append(ps, mon.Problem{Sig: "audit-file-unreadable", Msg: err.Error()})
+				continue
+			}
+			up := a.Upstream[in]
+			if up == nil {
+				ps = append(ps, mon.Problem{Sig: "audit-upstream-keys", Msg: fmt.Sprintf("record of used/f_%d.txt.use.out has Upstream keys %v, its input is %s", k, keysOfAudit(a), in)})
+			} else if up.ProcessName != "maker" || up.Params["i"] != fmt.Sprint(k) || up.Command == "" && i%2 == 0 {
+				ps = append(ps, mon.Problem{Sig: "audit-upstream-record", Msg: fmt.Sprintf("Upstream[%s] of used/f_%d.txt.use.out names process %q with parameters %v: the file was made by maker with i=%d", in, k, up.ProcessName, up.Params, k)})
+			}
+		}
+		if len(ps) > 0 {
+			for _, sig := range sigSet(ps) {
+				desc["problems"] = mon.Summarize(ps, 10)
+				c.Violation(sig, strings.Join(mon.Summarize(ps, 4), "\n  "), desc)
+			}
+			return
+		}
+		c.Count("audit_records_compared", 2*n)
+		c.Nontrivial(fmt.Sprintf("globbed|%d|%s", n, prefix))
 	})
 }
